@@ -233,6 +233,7 @@ func (w *worker) runPath(l *LemmaRun, entry *ssa.Function, prefix []Decision) {
 	in.model, in.modelHits = nil, 0
 	in.lits, in.litHits = nil, 0
 	in.fixed, in.free = nil, nil
+	errsAtStart := in.sol.Errors
 	in.sol.Push()
 	status := "ok"
 	why := ""
@@ -295,7 +296,7 @@ func (w *worker) runPath(l *LemmaRun, entry *ssa.Function, prefix []Decision) {
 		}
 	}
 	in.sol.PopTo(0)
-	if strings.Contains(in.sol.lastErr, "canceled") {
+	if in.sol.Errors > errsAtStart || strings.Contains(in.sol.lastErr, "canceled") {
 		// The solver printed an (error …) during this path - typically z3 4.8.12's "push canceled" right after a query
 		// timeout: the (push 1) was dropped, so the solver's assertion stack no longer matches ours and every later
 		// path of this worker would be judged against stale assertions ("replayed decision prefix is infeasible" in
